@@ -112,6 +112,15 @@ def build_entry(I, con: Contract, node, case_types):
                 raise Unsupported("*args must be given a tuple type")
             bindings[va] = v
             kwargs["__varargs__"] = v
+    kwn = node.args.kwarg.arg if node.args.kwarg is not None else None
+    if kwn is not None:
+        ty = (case_types or {}).get(kwn) or con.args.get(kwn)
+        if ty is not None:
+            v = ty.fresh(I, kwn)
+            if not isinstance(v, dict):
+                raise Unsupported("**kwargs must be given a dict type")
+            bindings[kwn] = v
+            kwargs["__kwargs__"] = v
     return bindings, kwargs, self_obj
 
 
@@ -155,11 +164,14 @@ def run_path(con: Contract, case, prefix, worklist, report: FunctionReport, plan
             kw = dict(kwargs)
             # positional parameters are passed by keyword; *args (if typed) follows them positionally
             extra = list(kw.pop("__varargs__", ()))
+            extra_kw = kw.pop("__kwargs__", None)
             pos = []
             if extra:
                 a_ = node.args
                 names_ = [p.arg for p in a_.posonlyargs + a_.args][(1 if self_obj is not None else 0):]
                 pos = [kw.pop(n_) for n_ in names_ if n_ in kw] + extra
+            if extra_kw:
+                kw.update(extra_kw)
             if self_obj is not None:
                 result = I.call_ast_function(node, modname, None, pos, kw, bound_self=self_obj)
             else:
@@ -357,7 +369,9 @@ def explore_one(con: Contract, case, prefix, first):
     q0, s0 = STATS.queries, STATS.solver_s
     worklist = []
     try:
-        run_path(con, case, prefix, worklist, report, plant_canary=first)
+        # the planted must-fail assertion goes on every path: it shows the pipeline can fail and that the
+        # path condition of every explored path is satisfiable (no vacuous paths)
+        run_path(con, case, prefix, worklist, report, plant_canary=True)
     except Unsupported as u:
         report.outside_reach = f"{u}"
     except Exception as e:  # engine error: never a verdict
